@@ -30,14 +30,17 @@ ASSUMPTIONS = ["number fields have at most 4300 digits: beyond that CPython's in
                "print_parse is read modulo a single leading ro./imm. (from_string strips it as context, ticket #833)",
                "any ':'-introduced suffix of an MDMF-family cap counts as the extension field the MDMF format allows"]
 
-FIXED_CORPUS = [
-    # (deep, string) — the probed defect classes of DESIGN §3 and friends, run first
-    "chkv+junk", "chkv+newline", "chk+newline", "ssk+newline", "lit+newline", "mdmf+newline", "dir+newline",
-    "chk-leading-zero-k", "chk-leading-zero-size", "chkv-leading-zero", "dirchk-leading-zero", "mdmf-ext", "mdmf-ext-newline",
-]
+# Diagnostic switch (not used by any registered command): C15_MODEL=as-written compares the tree against the model of
+# the *unrepaired* patterns (driver op `fsw`, Tahoe.Uri.specAsWritten) instead of the repaired ones (`fs`).  On the
+# unrepaired tree that comparison has 0 disagreements, which is how the as-written recognisers were validated.
+import os as _os
+FS_OP = "fsw" if _os.environ.get("C15_MODEL") == "as-written" else "fs"
+
 
 
 def corpus(rng):
+    """fixed corpus run first: the probed defect classes of DESIGN §3 (CHK-verifier junk, trailing newline on every
+    kind, leading zeros) and the MDMF extension / alleged-prefix forms"""
     from allmydata import uri
     k, f = bytes(range(16)), bytes(range(32))
     chk = uri.CHKFileURI(k, f, 3, 10, 1234).to_string()
@@ -139,9 +142,9 @@ def run(ctx):
     from allmydata import uri
     from allmydata.util import base32
     rng = ctx.rng
-    n_caps = ctx.budget(40, 1500)      # per kind
+    n_caps = ctx.budget(32, 1500)      # per kind
     n_mut = ctx.budget(12, 40)         # mutations per cap (of a subset)
-    n_rand = ctx.budget(1500, 60000)
+    n_rand = ctx.budget(1200, 60000)
 
     strings = []                        # (label, bytes)
     objs = []
@@ -186,7 +189,7 @@ def run(ctx):
             ctx.count("result:" + "".join(x or "" for x in U.tag_of(c)) + ("" if U.tag_of(c)[0] != "U" else ":" + U.describe(c)[2:]))
             monitor_string(ctx, s, deep, c)
             ctx.case((deep, s) if has_cap_prefix(s) else None)
-            lines.append("%s %d %s" % (__import__("os").environ.get("C15_OP","fs"), 1 if deep else 0, hx(s)))
+            lines.append("%s %d %s" % (FS_OP, 1 if deep else 0, hx(s)))
             impl.append(out)
             cases.append({"s": hx(s), "deep": deep, "label": lab})
     model = ctx.model(lines)
